@@ -262,44 +262,127 @@ Qed.
 Print Assumptions C19_servo_history_nonvacuous.
 
 (* ====================================================================================
-   The two linear maps in BINARY64 (Host/ServoFloat.v).  The theorems above are over exact rationals, where
-   the maps send [min, max] onto [min, max]; CPython rounds each of the five operations ([fl]), and the
-   clause "angle and pulse stay within their bounds" is an EXACT inequality.
-     a2p_fl s a / p2a_fl s p   the maps as CPython computes them;  sstep_fl := the class with them
-     top_exact lo hi           := fl (lo + fl (hi - lo)) = hi     (executable guard of the generators)
+   The two linear maps in BINARY64 (Host/ServoFloat.v), as the class computes them after the repair of
+   F-C19-servo-bound-ulp.  The theorems above are over exact rationals, where the maps send [min, max] onto
+   [min, max]; CPython rounds each of the five operations ([fl]) and then CLAMPS the value to the configured
+   bounds; the clause "angle and pulse stay within their bounds" is an EXACT inequality.
+     lin_fl ..               the raw interpolation (five rounded operations)
+     lin_clamped_fl ..       := qclamp lo_out hi_out (lin_fl ..)        min(max(v, lo), hi)
+     a2p_fl s a / p2a_fl s p the maps as the class computes them;  a2p_raw_fl / p2a_raw_fl without the clamp
+     sstep_fl / srun_fl      the class with them
+     servo_bounds_fl s       := min_a <= cur_a <= max_a /\ min_p <= cur_p <= max_p
+     servo_cfg_ok s          := min_a < max_a /\ min_p < max_p   (what the constructor accepts)
+     top_ok lo hi            := fl (lo + fl (fl (hi - lo))) <= hi   (the OLD guard: where it holds the clamp never bites)
    ==================================================================================== *)
 
-(* REFUTED on the unchanged code (finding F-C19-servo-bound-ulp): Servo(9, min_pulse_us=543.9,
-   max_pulse_us=2000.2).write(180) - an angle within its bounds - leaves a pulse ABOVE max_pulse_us *)
-Theorem C19_servo_binary64_pulse_bound_refuted :
-  exists s v, is_b64 (min_p s) = true /\ is_b64 (max_p s) = true /\ min_a s < max_a s /\ min_p s < max_p s /\
-    py_between (min_a s) (max_a s) v = Some true /\
-    max_p s < cur_p (sstate (sstep_fl s (SWrite v))).
-Proof.
-  exists pulse_witness, (PI 180).
-  destruct ServoFloatP.pulse_witness_facts as (A & B & D & E & _ & F).
-  split; [exact A|]. split; [exact B|]. split; [reflexivity|]. split; [exact D|]. split; [reflexivity|].
-  rewrite F. exact E.
-Qed.
-Print Assumptions C19_servo_binary64_pulse_bound_refuted.
+(* the repaired map lands within the bounds for EVERY argument and every calibration: no guard *)
+Theorem C19_servo_binary64_map_within_bounds : forall lo_in hi_in lo_out hi_out x,
+  lo_out <= hi_out ->
+  lo_out <= lin_clamped_fl lo_in hi_in lo_out hi_out x /\ lin_clamped_fl lo_in hi_in lo_out hi_out x <= hi_out.
+Proof. exact ServoFloatP.lin_clamped_fl_bounds. Qed.
+Print Assumptions C19_servo_binary64_map_within_bounds.
 
-(* ... and Servo(9, min_angle=-90.7, max_angle=90.1).write_us(2400) leaves an angle ABOVE max_angle *)
-Theorem C19_servo_binary64_angle_bound_refuted :
-  exists s, is_b64 (min_a s) = true /\ is_b64 (max_a s) = true /\ min_a s < max_a s /\ min_p s < max_p s /\
-    max_a s < p2a_fl s (max_p s) /\ servo_top_exact s = false.
-Proof.
-  exists angle_witness. destruct ServoFloatP.angle_witness_facts as (A & B & D & E & F).
-  split; [exact A|]. split; [exact B|]. split; [exact D|]. split; [reflexivity|]. split; [exact E | exact F].
-Qed.
-Print Assumptions C19_servo_binary64_angle_bound_refuted.
+(* one call, successful or failing, of any calibration with min < max ... *)
+Theorem C19_servo_binary64_bounds_step : forall s op,
+  servo_cfg_ok s -> servo_bounds_fl s ->
+  servo_bounds_fl (sstate (sstep_fl s op)) /\ servo_cfg_ok (sstate (sstep_fl s op)).
+Proof. exact ServoFloatP.step_bounds_fl. Qed.
+Print Assumptions C19_servo_binary64_bounds_step.
 
-(* both witnesses are outside the guard; the default calibration is inside and maps its ends exactly *)
+(* ... every history ... *)
+Theorem C19_servo_binary64_bounds_run : forall ops s,
+  servo_cfg_ok s -> servo_bounds_fl s -> servo_bounds_fl (srun_fl ops s) /\ servo_cfg_ok (srun_fl ops s).
+Proof. exact ServoFloatP.run_bounds_fl. Qed.
+Print Assumptions C19_servo_binary64_bounds_run.
+
+(* ... from every accepted constructor call: angle and pulse within their bounds EXACTLY, in binary64 *)
+Theorem C19_servo_binary64_bounds_reachable : forall a s0 (ops : list sop),
+  servo_ctor a = inl s0 -> servo_bounds_fl (srun_fl ops s0).
+Proof. exact ServoFloatP.reachable_bounds_fl. Qed.
+Print Assumptions C19_servo_binary64_bounds_reachable.
+
+Theorem C19_servo_binary64_fresh_bounds : forall pin mina maxa minp maxp,
+  mina < maxa -> minp < maxp -> servo_bounds_fl (mkServo pin mina maxa minp maxp mina minp).
+Proof. exact ServoFloatP.fresh_bounds_fl. Qed.
+Print Assumptions C19_servo_binary64_fresh_bounds.
+
+(* REPAIRED (was C19_servo_binary64_pulse_bound_refuted): Servo(9, min_pulse_us=543.9, max_pulse_us=2000.2).write(180)
+   leaves the pulse ON max_pulse_us; the raw interpolation is above it - the clamp is what keeps the bound *)
+Theorem C19_servo_binary64_pulse_bound_repaired :
+  is_b64 (min_p pulse_witness) = true /\ is_b64 (max_p pulse_witness) = true /\ servo_cfg_ok pulse_witness /\
+  py_between (min_a pulse_witness) (max_a pulse_witness) (PI 180) = Some true /\
+  max_p pulse_witness < a2p_raw_fl pulse_witness 180 /\
+  cur_p (sstate (sstep_fl pulse_witness (SWrite (PI 180)))) = max_p pulse_witness.
+Proof.
+  destruct ServoFloatP.pulse_witness_facts as (A & B & D & E & F & _ & G).
+  destruct ServoFloatP.repaired_witnesses as (C1 & _).
+  split; [exact A|]. split; [exact B|]. split; [exact C1|]. split; [reflexivity|]. split; [exact E|].
+  rewrite G. exact F.
+Qed.
+Print Assumptions C19_servo_binary64_pulse_bound_repaired.
+
+(* REPAIRED (was C19_servo_binary64_angle_bound_refuted): Servo(9, min_angle=-90.7, max_angle=90.1).write_us(2400) *)
+Theorem C19_servo_binary64_angle_bound_repaired :
+  is_b64 (min_a angle_witness) = true /\ is_b64 (max_a angle_witness) = true /\ servo_cfg_ok angle_witness /\
+  max_a angle_witness < p2a_raw_fl angle_witness (max_p angle_witness) /\
+  p2a_fl angle_witness (max_p angle_witness) = max_a angle_witness /\
+  servo_top_ok angle_witness = false.
+Proof.
+  destruct ServoFloatP.angle_witness_facts as (A & B & _ & E & F & _).
+  destruct ServoFloatP.repaired_witnesses as (_ & C2 & _ & T & _).
+  split; [exact A|]. split; [exact B|]. split; [exact C2|]. split; [exact E|]. split; [exact F | exact T].
+Qed.
+Print Assumptions C19_servo_binary64_angle_bound_repaired.
+
+(* non-vacuity of the bound theorems: both old witnesses are accepted calibrations OUTSIDE the old guard, and the
+   repaired calls end on the bound *)
+Example C19_servo_binary64_repaired_nonvacuous :
+  servo_cfg_ok pulse_witness /\ servo_cfg_ok angle_witness /\
+  servo_top_ok pulse_witness = false /\ servo_top_ok angle_witness = false /\
+  cur_p (sstate (sstep_fl pulse_witness (SWrite (PI 180)))) = max_p pulse_witness /\
+  cur_a (sstate (sstep_fl angle_witness (SWriteUs (PI 2400)))) = max_a angle_witness /\
+  servo_top_ok (mkServo (PI 9) 0 180 544 2400 0 544) = true.
+Proof. exact ServoFloatP.repaired_witnesses. Qed.
+Print Assumptions C19_servo_binary64_repaired_nonvacuous.
+
+(* the default calibration maps its ends and its middle exactly *)
 Theorem C19_servo_binary64_default_calibration :
   let s := mkServo (PI 9) 0 180 544 2400 0 544 in
   servo_top_exact s = true /\ a2p_fl s 180 = 2400 /\ a2p_fl s 0 = 544 /\ p2a_fl s 2400 = 180 /\ p2a_fl s 544 = 0 /\
   a2p_fl s 90 = 1472.
 Proof. exact ServoFloatP.default_calibration_exact. Qed.
 Print Assumptions C19_servo_binary64_default_calibration.
+
+(* the repair changes nothing where the class was right: inside the old guard (the image of the top of the range is
+   not above the bound, min a binary64 number) the clamp is the identity on every in-range argument, because there the
+   raw interpolation already stays within the bounds (rounding is monotone) *)
+Theorem C19_servo_binary64_clamp_idle_inside_old_guard : forall lo_in hi_in lo_out hi_out x,
+  lo_in < hi_in -> lo_out <= hi_out -> lo_in <= x -> x <= hi_in ->
+  is_b64 lo_out = true -> top_ok lo_out hi_out = true ->
+  lin_clamped_fl lo_in hi_in lo_out hi_out x = lin_fl lo_in hi_in lo_out hi_out x.
+Proof. exact ServoFloatP.lin_clamped_fl_id. Qed.
+Print Assumptions C19_servo_binary64_clamp_idle_inside_old_guard.
+
+Theorem C19_servo_binary64_raw_map_within_bounds_partial : forall lo_in hi_in lo_out hi_out x,
+  lo_in < hi_in -> lo_out <= hi_out -> lo_in <= x -> x <= hi_in ->
+  is_b64 lo_out = true -> top_ok lo_out hi_out = true ->
+  lo_out <= lin_fl lo_in hi_in lo_out hi_out x /\ lin_fl lo_in hi_in lo_out hi_out x <= hi_out.
+Proof. exact ServoFloatP.lin_fl_bounds. Qed.
+Print Assumptions C19_servo_binary64_raw_map_within_bounds_partial.
+
+(* rounding to the nearest binary64 number is monotone and idempotent *)
+Theorem C19_binary64_rounding_monotone : forall p q, p <= q -> fl p <= fl q.
+Proof. exact ServoFloatP.fl_mono. Qed.
+Print Assumptions C19_binary64_rounding_monotone.
+
+Theorem C19_binary64_rounding_idempotent : forall x, fl (fl x) == fl x.
+Proof. exact ServoFloatP.fl_idem. Qed.
+Print Assumptions C19_binary64_rounding_idempotent.
+
+Theorem C19_servo_binary64_old_guard_is_executable : forall lo hi,
+  (top_ok lo hi = true <-> fl (lo + fl (hi - lo)) <= hi) /\ (top_exact lo hi = true -> top_ok lo hi = true).
+Proof. intros lo hi. split; [exact (ServoFloatP.top_ok_iff lo hi) | exact (ServoFloatP.top_exact_ok lo hi)]. Qed.
+Print Assumptions C19_servo_binary64_old_guard_is_executable.
 
 (* what holds exactly in binary64 for every servo and argument: the commanded coordinate is stored as given
    (write/read and write_us/read_us round-trip), a failing call changes nothing, the configuration is constant *)
@@ -327,58 +410,3 @@ Theorem C19_servo_binary64_config_constant : forall s op,
   sv_pin s' = sv_pin s /\ min_a s' = min_a s /\ max_a s' = max_a s /\ min_p s' = min_p s /\ max_p s' = max_p s.
 Proof. exact ServoFloatP.servo_config_constant_fl. Qed.
 Print Assumptions C19_servo_binary64_config_constant.
-
-(* rounding to the nearest binary64 number is monotone - what the bound theorem below rests on *)
-Theorem C19_binary64_rounding_monotone : forall p q, p <= q -> fl p <= fl q.
-Proof. exact ServoFloatP.fl_mono. Qed.
-Print Assumptions C19_binary64_rounding_monotone.
-
-(* PARTIAL, guard explicit: when the calibration maps the top of each range not above the bound
-   ([servo_top_ok]: fl (min + fl (fl (max - min))) <= max on both axes - implied by the executable guard
-   top_exact of the generators, fl (fl x) being fl x on binary64 numbers) and min_angle / min_pulse are
-   binary64 numbers, the image of EVERY in-range argument is within the configured bounds EXACTLY, in binary64:
-   one of the two maps ... *)
-Theorem C19_servo_binary64_map_within_bounds_partial : forall lo_in hi_in lo_out hi_out x,
-  lo_in < hi_in -> lo_out <= hi_out -> lo_in <= x -> x <= hi_in ->
-  is_b64 lo_out = true -> top_ok lo_out hi_out = true ->
-  lo_out <= lin_fl lo_in hi_in lo_out hi_out x /\ lin_fl lo_in hi_in lo_out hi_out x <= hi_out.
-Proof. exact ServoFloatP.lin_fl_bounds. Qed.
-Print Assumptions C19_servo_binary64_map_within_bounds_partial.
-
-(* ... one call, successful or failing ... *)
-Theorem C19_servo_binary64_bounds_step_partial : forall s op,
-  servo_guard s -> servo_bounds_fl s ->
-  servo_bounds_fl (sstate (sstep_fl s op)) /\ servo_guard (sstate (sstep_fl s op)).
-Proof. exact ServoFloatP.step_bounds_fl. Qed.
-Print Assumptions C19_servo_binary64_bounds_step_partial.
-
-(* ... and every history *)
-Theorem C19_servo_binary64_bounds_reachable_partial : forall ops s,
-  servo_guard s -> servo_bounds_fl s -> servo_bounds_fl (srun_fl ops s) /\ servo_guard (srun_fl ops s).
-Proof. exact ServoFloatP.run_bounds_fl. Qed.
-Print Assumptions C19_servo_binary64_bounds_reachable_partial.
-
-Theorem C19_servo_binary64_fresh_bounds : forall pin mina maxa minp maxp,
-  mina < maxa -> minp < maxp -> servo_bounds_fl (mkServo pin mina maxa minp maxp mina minp).
-Proof. exact ServoFloatP.fresh_bounds_fl. Qed.
-Print Assumptions C19_servo_binary64_fresh_bounds.
-
-(* the guard is satisfiable by the default calibration and by a one-decimal one (0.1 .. 179.9, 544.5 .. 2400.3),
-   and false for both refutation witnesses *)
-Example C19_servo_binary64_guard_nonvacuous :
-  servo_guard (mkServo (PI 9) 0 180 544 2400 0 544) /\
-  servo_guard (mkServo (PI 9) (fl (1 # 10)) (fl (1799 # 10)) (fl (5445 # 10)) (fl (24003 # 10)) (fl (1 # 10)) (fl (5445 # 10))) /\
-  servo_top_ok pulse_witness = false /\ servo_top_ok angle_witness = false.
-Proof. exact ServoFloatP.guard_nonvacuous. Qed.
-Print Assumptions C19_servo_binary64_guard_nonvacuous.
-
-(* the results of [fl] are binary64 numbers (rounding again changes nothing), so the guard is what the generators
-   evaluate in Python - lo + (hi - lo) <= hi with every operation rounded once - and the equality form implies it *)
-Theorem C19_binary64_rounding_idempotent : forall x, fl (fl x) == fl x.
-Proof. exact ServoFloatP.fl_idem. Qed.
-Print Assumptions C19_binary64_rounding_idempotent.
-
-Theorem C19_servo_binary64_guard_is_executable : forall lo hi,
-  (top_ok lo hi = true <-> fl (lo + fl (hi - lo)) <= hi) /\ (top_exact lo hi = true -> top_ok lo hi = true).
-Proof. intros lo hi. split; [exact (ServoFloatP.top_ok_iff lo hi) | exact (ServoFloatP.top_exact_ok lo hi)]. Qed.
-Print Assumptions C19_servo_binary64_guard_is_executable.
